@@ -355,7 +355,8 @@ def ser_op(api, op):
     k = op.kernel
     p = op.padding
     uses_lut = op.activation is not None and op.activation.op_type == api.NpuActivationOp.TABLE_LOOKUP
-    v = [1 if op.op_type == api.NpuOperationType.Conv2D else 0, 1 if uses_lut else 0,
+    is_rsum = op.op_type == api.NpuOperationType.Pooling and op.sub_op_type == api.NpuPoolingOp.REDUCE_SUM
+    v = [1 if op.op_type == api.NpuOperationType.Conv2D else 0, 1 if is_rsum else 0, 1 if uses_lut else 0,
          1 if op.ifm2_scalar is not None else 0, 1 if op.ifm2 is not None else 0,
          1 if k is not None else 0]
     v += [k.width, k.height, k.stride_x, k.stride_y, k.dilation_x, k.dilation_y] if k is not None else [0] * 6
@@ -388,117 +389,6 @@ def describe_op(api, op):
             "activation": (op.activation.op_type.name, op.activation.lookup_table_index, op.activation.min) if op.activation else None,
             "block_config": list(op.block_config),
             "block_traversal": getattr(getattr(op, "block_traversal", None), "name", None)}
-
-
-# ---- known BLOCKDEP defects: which repair forbids a reported overlap -----------------------------------
-
-KNOWN_PAD_KEY = "blockdep-first-job-y-uses-padding-right"
-KNOWN_RSUM_KEY = "blockdep-reduce-sum-ifm-depth-from-ofm"
-KNOWN_LAYOUT_KEY = "blockdep-coordinate-shortcut-ignores-layout"
-KNOWN_IFMWIN_KEY = "tile-padding-ifm-shape-smaller-than-read-window"
-FIXES = (("pad", KNOWN_PAD_KEY), ("rsum", KNOWN_RSUM_KEY), ("layout", KNOWN_LAYOUT_KEY), ("ifmwin", KNOWN_IFMWIN_KEY))
-
-
-def fixed_blockdeps(arch, ops):
-    """For every kernel operation that has a kernel predecessor: the value the real calc_blockdep returns
-    as is, and with every subset of the recorded defects repaired from the outside (never by editing /repo):
-      pad     get_first_job_input_volume takes the y start from padding.top: the operation is copied with its
-              `right` field carrying `top` (`right` is read nowhere else inside calc_blockdep)
-      rsum    get_ifm_ofm_block_depth returns the IFM depth for REDUCE_SUM (the operation reads every channel)
-      layout  intersects() takes the coordinate shortcut only if layout, element size and strides agree as well
-      ifmwin  the IFM handed to the generator declares the window the hardware reads, (OFM-1)*stride + dilated
-              kernel - padding, when that is larger than `ifm.shape` (explicit padding through tile aliasing,
-              high_level_command_to_npu_op.modify_tile_addresses_for_padding, keeps the unpadded shape)
-    Result: {op index: {"prev": index, "": emitted, "pad": …, "pad+rsum": …, …}}"""
-    import copy
-    import itertools
-
-    from ethosu.vela import api
-    from ethosu.vela import register_command_stream_util as rcsu
-
-    orig_depth = rcsu.get_ifm_ofm_block_depth
-    orig_inter = rcsu.intersects
-
-    def depth_fixed(arch_, npu_op):
-        if isinstance(npu_op, api.NpuPoolingOperation) and npu_op.sub_op_type == api.NpuPoolingOp.REDUCE_SUM:
-            return npu_op.ifm.shape.depth
-        return orig_depth(arch_, npu_op)
-
-    def inter_fixed(ifm, is_, ie, prev_ofm, os_, oe):
-        same_view = (ifm.layout == prev_ofm.layout and ifm.data_type.size_in_bytes() == prev_ofm.data_type.size_in_bytes()
-                     and rcsu.get_strides(ifm) == rcsu.get_strides(prev_ofm))
-        if ifm.shape == prev_ofm.shape and ifm.tiles == prev_ofm.tiles and not same_view:
-            a = rcsu.get_address_ranges_for_area(ifm, is_, ie)
-            b = rcsu.get_address_ranges_for_area(prev_ofm, os_, oe)
-            return rcsu.range_lists_overlap(a, b)
-        return orig_inter(ifm, is_, ie, prev_ofm, os_, oe)
-
-    def bd(prev, o, fixes):
-        o2 = o
-        if "pad" in fixes and o.padding is not None and o.padding.right != o.padding.top:
-            o2 = copy.copy(o)
-            o2.padding = api.NpuPadding(top=o.padding.top, left=o.padding.left, bottom=o.padding.bottom, right=o.padding.top)
-        if "ifmwin" in fixes and o.kernel is not None and o.ifm_upscale == api.NpuResamplingMode.NONE:
-            k, p = o.kernel, (o.padding or api.NpuPadding(0, 0, 0, 0))
-            need_h = (o.ofm.shape.height - 1) * k.stride_y + (k.height - 1) * k.dilation_y + 1 - p.top - p.bottom
-            need_w = (o.ofm.shape.width - 1) * k.stride_x + (k.width - 1) * k.dilation_x + 1 - p.left - p.right
-            if need_h > o.ifm.shape.height or need_w > o.ifm.shape.width:
-                if o2 is o:
-                    o2 = copy.copy(o)
-                o2.ifm = copy.copy(o.ifm)
-                o2.ifm.shape = api.NpuShape3D(height=max(need_h, o.ifm.shape.height), width=max(need_w, o.ifm.shape.width),
-                                              depth=o.ifm.shape.depth)
-        rcsu.get_ifm_ofm_block_depth = depth_fixed if "rsum" in fixes else orig_depth
-        rcsu.intersects = inter_fixed if "layout" in fixes else orig_inter
-        try:
-            return int(min(rcsu.calc_blockdep(arch, prev, o2), arch.max_blockdep))
-        finally:
-            rcsu.get_ifm_ofm_block_depth = orig_depth
-            rcsu.intersects = orig_inter
-
-    names = [n for n, _ in FIXES]
-    subsets = [c for r in range(len(names) + 1) for c in itertools.combinations(names, r)]
-    out = {}
-    prev, prev_i = None, None
-    for i, o in enumerate(ops):
-        if isinstance(o, api.NpuDmaOperation):
-            continue
-        if prev is not None:
-            d = {"prev": prev_i}
-            for sub in subsets:
-                d["+".join(sub)] = bd(prev, o, sub)
-            out[str(i)] = d
-        prev, prev_i = o, i
-    return out
-
-
-def classify_blockjobs(msg, fixed):
-    """Known-finding keys that explain *every* overlap reported in a `blockjobs=` answer, or None.
-    An overlap (operation c, forward job f, job k from the end of the previous kernel) is explained by a set of
-    defects when calc_blockdep with exactly those defects repaired returns a value <= f + k, i.e. forbids the
-    overlap; the smallest such set is taken."""
-    import re
-
-    found = re.findall(r"op_(\d+)_BLOCKDEP_(\d+):_job_(\d+)_may_run_with_job_(\d+)_from_the_end_of_op_(\d+):", msg)
-    if not found:
-        return None
-    keymap = dict(FIXES)
-    keys = set()
-    for c, _bd, f, k, p in found:
-        fx = fixed.get(str(int(c)))
-        if fx is None or fx["prev"] != int(p):
-            return None
-        lim = int(f) + int(k)
-        cands = sorted((s for s in fx if s not in ("prev", "") and fx[s] <= lim), key=lambda s: (s.count("+"), s))
-        if not cands:
-            return None
-        keys.update(keymap[n] for n in cands[0].split("+"))
-    return keys
-
-
-def pipeline_extra(res):
-    """runs inside the pipeline worker: per captured stream, the repaired BLOCKDEP values"""
-    return [fixed_blockdeps(art.arch, art.npu_ops) for art in res.streams]
 
 
 def rebuild_op(api, d):
